@@ -99,6 +99,7 @@ func VsymC43_Expiry() {
 					delete(cl.silence, id)
 				} else {
 					vsym_Assert(!expired, "C43/silent-member-removed-at-tick")
+					vsym_Assert(!p.lagger, "C43/member-that-missed-the-rebalance-deadline-removed-at-tick")
 				}
 			}
 			if anyRemoved && after != nil {
